@@ -1459,8 +1459,16 @@ func (d *DotGit) rewritePackedRefsWithoutRef(name plumbing.ReferenceName) (err e
 
 	s := bufio.NewScanner(pr)
 	found := false
+	removedPrev := false
 	for s.Scan() {
 		line := s.Text()
+		// The peeled value of an annotated tag goes with its reference line:
+		// left behind, git reads it as the peeled value of the line before.
+		if removedPrev && strings.HasPrefix(line, "^") {
+			continue
+		}
+		removedPrev = false
+
 		ref, err := d.processLine(line)
 		if err != nil {
 			return err
@@ -1468,6 +1476,7 @@ func (d *DotGit) rewritePackedRefsWithoutRef(name plumbing.ReferenceName) (err e
 
 		if ref != nil && ref.Name() == name {
 			found = true
+			removedPrev = true
 			continue
 		}
 
